@@ -76,6 +76,8 @@ type parseCfg struct {
 	// sib: the input is placed in a buffer that held, and into a ParsedJson that has just parsed, a document of the same
 	// length and layout with other digits and letters (a caller refilling one buffer and recycling one result)
 	sib bool
+	// prior: the call is handed a ParsedJson that has just served a successful parse of a small fixed document
+	prior bool
 }
 
 // withSibling returns the four configurations plus one of them, chosen by the input, in "sib" mode.
@@ -83,7 +85,9 @@ func parseCfgsSib(in []byte) []parseCfg {
 	cfgs := parseCfgs()
 	c := cfgs[int(evidHash(in)%uint64(len(cfgs)))]
 	c.sib = true
-	return append(cfgs, c)
+	d := cfgs[int((evidHash(in)>>8)%uint64(len(cfgs)))]
+	d.prior = true
+	return append(cfgs, c, d)
 }
 
 func parseCfgs() []parseCfg {
@@ -99,6 +103,9 @@ func (c parseCfg) String() string {
 	if c.sib {
 		s = "same buffer and result object as a same-length document before/" + s
 	}
+	if c.prior {
+		s = "result object of a successful parse reused/" + s
+	}
 	if c.copy {
 		return s + "/copy"
 	}
@@ -106,6 +113,27 @@ func (c parseCfg) String() string {
 }
 
 func parseWith(cfg parseCfg, in []byte, nd bool) (pj *simdjson.ParsedJson, err error) {
+	if cfg.prior {
+		withKernel(cfg.avx512, func() {
+			var prev *simdjson.ParsedJson
+			var perr error
+			if nd {
+				prev, perr = simdjson.ParseND([]byte("{\"a\":[1,2,{\"b\":null}]}\n[\"c\\n\",2.5]"), nil, simdjson.WithCopyStrings(cfg.copy))
+				if perr == nil {
+					pj, err = simdjson.ParseND(in, prev, simdjson.WithCopyStrings(cfg.copy))
+				}
+			} else {
+				prev, perr = simdjson.Parse([]byte(`{"a":[1,2,{"b":null}],"c":"d\n"}`), nil, simdjson.WithCopyStrings(cfg.copy))
+				if perr == nil {
+					pj, err = simdjson.Parse(in, prev, simdjson.WithCopyStrings(cfg.copy))
+				}
+			}
+			if perr != nil {
+				err = bugf("fixed prior document rejected: %v", perr)
+			}
+		})
+		return
+	}
 	if cfg.sib {
 		withKernel(cfg.avx512, func() {
 			buf := sameLengthSibling(in, evidHash(in))
@@ -226,6 +254,9 @@ func boundaryClasses(in []byte) []string {
 
 func pickProfile(t *rapid.T) docProfile {
 	ps := []docProfile{profTiny, profTiny, profMedium, profKeys, profStr, profNum}
+	if rapid.IntRange(0, 15).Draw(t, "deepprofile") == 0 {
+		return profDeep // one root member is a spine of 20..270 nested containers: depth boundaries (128) for every consumer
+	}
 	return ps[rapid.IntRange(0, len(ps)-1).Draw(t, "profile")]
 }
 
